@@ -38,6 +38,8 @@ func assetKinds() map[string]asset {
 		"404":      {H + "/missing.png", []Node{{URL: H + "/missing.png", Kind: "status", Code: 404}}},
 		"500":      {H + "/boom.png", []Node{{URL: H + "/boom.png", Kind: "fail5xx"}}},
 		"redir":    {H + "/ra", []Node{{URL: H + "/ra", Kind: "redirect", Location: H + "/ra.png"}, {URL: H + "/ra.png", Kind: "bin"}}},
+		"redirB":   {H + "/rb", []Node{{URL: H + "/rb", Kind: "redirect", Code: 302, Location: H + "/ra.png"}, {URL: H + "/ra.png", Kind: "bin"}}},
+		"redirEx":  {H + "/rx", []Node{{URL: H + "/rx", Kind: "redirect", Location: "http://excluded.example/x.png"}}},
 		"m3u8":     {H + "/pl.m3u8", []Node{{URL: H + "/pl.m3u8", Kind: "m3u8", Refs: []string{"seg0.ts"}}, {URL: H + "/seg0.ts", Kind: "bin"}}},
 		"slash":    {"http://other.example/", nil},
 		"flaky":    {H + "/flaky.png", []Node{{URL: H + "/flaky.png", Kind: "flaky", FailN: 1}}},
@@ -74,7 +76,7 @@ func MkSite(name, seedKind string, assets []string) SiteDef {
 // sweep: every seed kind x every multiset of <=2 asset kinds (assets only matter for seeds that reach the page).
 func SweepSites(tier string) []SiteDef {
 	var out []SiteDef
-	akeys := []string{"bin", "samepage", "js", "exhost", "404", "500", "redir", "m3u8", "slash", "flaky", "429"}
+	akeys := []string{"bin", "samepage", "js", "exhost", "404", "500", "redir", "redirB", "redirEx", "m3u8", "slash", "flaky", "429"}
 	for _, sk := range []string{"404", "500", "nodot", "excluded"} {
 		out = append(out, MkSite("seed="+sk, sk, nil))
 	}
